@@ -67,6 +67,7 @@ CONSTANTS Obj,              \* application objects (strings); Root is the databa
           MaxTail,          \* ... once MaxCommit is used up
           Ops,              \* enabled families: "add" "load" "sp" "close" "own" "rm" "other" "free" (modify unowned objects)
                             \* "bf" (storage refuses tpc_begin) "awf" (add while the transaction is failed) "imp" (importFile)
+                            \* "mwf" (modify an object of the unjoined connection while the transaction is failed)
           AliasCreating, SpBlobByName, InvalidateDoomed, LeakUnstored, AddBeforeJoin, ImportNotCreating
 
 VARIABLES ob,    \* [All -> [own, cached, flag, serial, st]]  the application's objects
@@ -516,6 +517,19 @@ AddWhileFailed(o) ==
      IN Set(IF AddBeforeJoin THEN [b EXCEPT !.ob[o].own = TRUE] ELSE b)
   /\ sps' = <<>> /\ cm' = Idle /\ UNCHANGED hist /\ SetObs({})
 
+\* The connection has NOT joined; a commit of the transaction fails (only other resource managers of the same
+\* transaction manager take part: the connection is a synchronizer, so it sees the boundary), and BEFORE aborting the
+\* application assigns to an attribute of an object of this connection: the object is activated, Connection.register
+\* cannot join the failed transaction (TransactionFailedError; persistent's setattr registers BEFORE it stores, so
+\* nothing changes) and the connection must NOT believe it is joined.  Then the application aborts.
+ModifyWhileFailed(o, v) ==
+  /\ App /\ "mwf" \in Ops /\ ~cn.joined /\ o \in Obj \ Blobs /\ ob[o].own
+  /\ LET b == Boundary(B, hist) IN
+     /\ b.ob[o].flag # "ghost" \/ LoadStH(hist, b, o) # Unloadable
+     /\ SeenH(hist, b, o).v # v
+     /\ Set(Loaded(b, o))
+  /\ sps' = <<>> /\ cm' = Idle /\ UNCHANGED hist /\ SetObs({})
+
 \* ... after the connection's tpc_begin, before it stored anything
 FailBegun ==
   /\ cm.pc = "begun" /\ "rm" \in Ops /\ cm.stack = <<>> /\ cm.tx = EmptyTx /\ (tmp.on \/ cm.todo = cn.reg)
@@ -584,7 +598,7 @@ OtherCommit(o) ==
   /\ UNCHANGED <<ob, cn, tmp, sps, cm>> /\ SetObs({})
 
 Next ==
-  \/ \E o \in All : (\E v \in Val : Modify(o, v)) \/ Load(o) \/ AddExplicit(o) \/ OtherCommit(o)
+  \/ \E o \in All : (\E v \in Val : Modify(o, v) \/ ModifyWhileFailed(o, v)) \/ Load(o) \/ AddExplicit(o) \/ OtherCommit(o)
                     \/ Store(o) \/ StoreRaises(o) \/ StoreConflict(o) \/ SavepointRaises(o) \/ CommitSpRaises(o)
                     \/ CommitSpStoreRaises(o) \/ AddWhileFailed(o) \/ ImportInTxn(o)
   \/ \E e \in Edges : Link(e[1], e[2]) \/ Unlink(e[1], e[2])
